@@ -157,7 +157,8 @@ def transform_product_info(section):
 
     def transform_file_info(mapping):
         filenames = keyfilter(lambda k: not k.startswith("Cnt"), mapping)
-        categorized = categorize_filenames(filenames)
+        # the roles follow the numbering of the `ProductFileNameNN` keys, not the order of the lines in the file
+        categorized = categorize_filenames(dict(sorted(filenames.items())))
 
         return Group(path="data_files", url=None, data={}, attrs=categorized)
 
